@@ -665,9 +665,17 @@ def judgeC20 (ops : List OpRec) : List String :=
         else viol s "C20-metadata-names-topics" op s!"a metadata request names {names.map toHexTok} outside an explicit load for them"
       | _ => s) s
     -- 2. no other request mentions a topic / partition that is not loaded
-    let s := reqs.foldl (fun s (_, r) => (mentionsOf r).foldl (fun s (t, p) =>
-      if isLoaded s.loaded t p then s
-      else viol s "C20-mentions-unloaded" op s!"a request (api {r.header.apiKey}) mentions {toHexTok t}/{p}, not in the loaded metadata {s.loaded.map fun (t, n) => (toHexTok t, n)}") s) s
+    --    (requests are taken in the order sent: a load of everything inside the operation - creating a consumer or producer
+    --    from hosts - makes the cluster's topics loaded for the requests that follow it)
+    let loadedBefore := s.loaded
+    let s := reqs.foldl (fun s (_, r) =>
+      let s := (mentionsOf r).foldl (fun s (t, p) =>
+        if isLoaded s.loaded t p then s
+        else viol s "C20-mentions-unloaded" op s!"a request (api {r.header.apiKey}) mentions {toHexTok t}/{p}, not in the loaded metadata {s.loaded.map fun (t, n) => (toHexTok t, n)}") s
+      match r.body with
+      | .metadata [] => { s with loaded := loadAll s.cluster }
+      | _ => s) s
+    let s := { s with loaded := loadedBefore }
     -- 3. calls that must fail locally
     let s := match op.toks with
       | _ :: "produce" :: _ :: _ :: _ :: args =>
@@ -713,8 +721,9 @@ def judgeC20 (ops : List OpRec) : List String :=
         else { s with loaded := names.foldl (fun l n =>
           (l.filter (·.1 != n)) ++ [(n, ((s.cluster.topic? n).map (·.parts.length)).getD 0)]) s.loaded }
       | none => s
-    | "producer_create" :: _ => if okRes then { s with loaded := loadAll s.cluster } else s
-    | "consumer_create" :: _ => if okRes then { s with loaded := loadAll s.cluster } else s
+    -- a producer / consumer built from hosts loads everything; one built from a client keeps what that client has loaded
+    | "producer_create" :: from_ :: _ => if okRes && from_ != "client" then { s with loaded := loadAll s.cluster } else s
+    | "consumer_create" :: from_ :: _ => if okRes && from_ != "client" then { s with loaded := loadAll s.cluster } else s
     | _ => s) ({} : JSt)
   s.out
 
